@@ -458,7 +458,9 @@ def gen_inclass(rng, knobs=None):
             elif it[0] is None and it[1] == "nest":
                 opts = {}
                 if rng.random() < (0.35 if kn.flavour == "routing" else 0.6):
-                    opts["prefix"] = "/n%d" % counters["label"]
+                    # (no prefix is a *string* prefix of another one - `/n1x` vs `/n11x`: the compiler treats `/n11/..` as lying
+                    # below a fallback registered for `/n1`, a recorded finding with its own witness)
+                    opts["prefix"] = "/n%dx" % counters["label"]
                     counters["label"] += 1
                     if rng.random() < 0.2:
                         opts["prefix"] += "/{np%d}" % counters["label"]
